@@ -8,8 +8,9 @@
    Two model steps touch nothing but the thread's own locals or data protected by a mutex the
    thread holds (PTest while doing_work is set; PDist with nothing left to give); they have no
    event and are taken just before the thread's next event.
-   A wake-up in the trace is accepted whether or not the model saw a notification (condition
-   variables may wake spuriously); what IS checked: the order of wait-list indices, head, tail,
+   The plain acceptor takes a wake-up in the trace whether or not the model saw a notification
+   (condition variables may wake spuriously); the strict layer at the end of the file requires
+   every wake-up to be explained by a notification.  What is checked in both: the order of wait-list indices, head, tail,
    the notify-available flag, doing_work, which waiter is head, mutual exclusion of `state` and
    `core` (a step that needs a held mutex is rejected), the cells the leader steals and fills,
    batch boundaries, and finally the outputs every call returned and the core's batch log. *)
@@ -19,7 +20,7 @@ Import ListNotations.
 Open Scope nat_scope.
 
 (* ---- the core used by the harness (harness/src/bin/c18.rs, struct HxCore) *)
-Record hcore := mkHcore { hc_limit : nat; hc_mod : N; hc_count : N }.
+Record hcore := mkHcore { hc_limit : nat; hc_mod : N; hc_count : N; hc_extra : nat }.
 Definition hacc := list N.
 Definition hout := (N * N * N)%type.       (* (input, batch number, position in batch) *)
 
@@ -31,20 +32,26 @@ Fixpoint h_outs (b : N) (j : N) (acc : hacc) : list hout :=
   | [] => []
   | x :: r => (x, b, j) :: h_outs b (j + 1)%N r
   end.
+(* an over-producing core: after the right outputs come hc_extra junk items (the trait allows an
+   output iterator that yields more than `taken` items; do_work must not hand them out) *)
+Definition h_junk : N := 999999%N.
+Fixpoint h_extra (b : N) (k : N) (n : nat) : list hout :=
+  match n with O => [] | S n' => (h_junk, b, k) :: h_extra b (k + 1)%N n' end.
 Definition h_work (c : hcore) (taken : nat) (acc : hacc) : hcore * list hout :=
-  (mkHcore (hc_limit c) (hc_mod c) (hc_count c + 1)%N, h_outs (hc_count c) 0%N acc).
+  (mkHcore (hc_limit c) (hc_mod c) (hc_count c + 1)%N (hc_extra c),
+   h_outs (hc_count c) 0%N acc ++ h_extra (hc_count c) 0%N (hc_extra c)).
 
 Definition hg := gstate N hout hacc hcore.
 Definition hpc := pc N hout hacc.
 Definition h_tstep : hg -> nat -> nat -> sres N hout hacc hcore :=
   tstep N hout hacc hcore [] h_can_batch h_batch h_work.
-Definition h_init (slots : nat) (limit : nat) (modulus : N) (progs : list (list N)) : hg :=
-  ginit N hout hacc hcore slots (mkHcore limit modulus 0%N) progs.
+Definition h_init (slots : nat) (limit : nat) (modulus : N) (extra : nat) (progs : list (list N)) : hg :=
+  ginit N hout hacc hcore slots (mkHcore limit modulus 0%N extra) progs.
 
 (* ---- events *)
 Inductive evk :=
 | EvLink | EvLinkWait | EvLinkWake | EvEnter | EvIsHead | EvLoad | EvWait | EvWoke | EvSawOutput
-| EvUnlink | EvNotifyAvailable | EvNotifyHead | EvLeader | EvCoreLocked | EvIterNext | EvStore
+| EvUnlink | EvNotifyAvailable | EvNotifyHead | EvNotifyAvailablePre | EvNotifyHeadPre | EvLeader | EvCoreLocked | EvIterNext | EvStore
 | EvStole | EvBreak | EvBatched | EvWork | EvGave | EvClear.
 
 Record event := mkEvent { e_tid : nat; e_kind : evk; e_a : nat; e_b : nat; e_c : nat }.
@@ -151,11 +158,18 @@ Definition handle (g : hg) (e : event) : verdict :=
                  | PExitWA _ _ _ _ _ => e_c e =? 1
                  | PExitNotify _ _ _ _ _ => e_c e =? 0
                  | _ => false end)))
-    | PExitWA _ _ _ _ _, EvNotifyAvailable =>
+    | PExitWA _ _ _ _ _, EvNotifyAvailablePre =>
         opt (step_chk g t (fun _ p' => match p' with PExitNotify _ _ _ _ _ => true | _ => false end))
-    | PExitNotify _ _ _ _ _, EvNotifyHead =>
-        guard ((b2n (head_of g <? tail_of g) =? e_a e) && (head_of g =? e_b e) && (tail_of g =? e_c e))
+    | PExitNotify _ _ _ _ _, EvNotifyAvailable => VSkip
+    (* notify_head: when there is a head the event recorded BEFORE cond.notify_one is the step
+       (so that the wake-up it causes comes after it in the trace); otherwise the "dropped" event *)
+    | PExitNotify _ _ _ _ _, EvNotifyHeadPre =>
+        guard ((head_of g <? tail_of g) && (head_of g =? e_b e) && (tail_of g =? e_c e))
               (opt (step_chk g t (fun _ p' => match p' with PIdle _ _ _ => true | _ => false end)))
+    | PExitNotify _ _ _ _ _, EvNotifyHead =>
+        guard ((e_a e =? 0) && negb (head_of g <? tail_of g) && (head_of g =? e_b e) && (tail_of g =? e_c e))
+              (opt (step_chk g t (fun _ p' => match p' with PIdle _ _ _ => true | _ => false end)))
+    | PIdle _ _ _, EvNotifyHead => guard (e_a e =? 1) VSkip
     (* ---- becoming the leader *)
     | PHead _ _ _ idx, EvIsHead =>
         guard ((idx =? e_a e) && (e_b e =? idx))
@@ -210,12 +224,16 @@ Definition handle (g : hg) (e : event) : verdict :=
                  | PLeaderWA _ _ _ _ _ => e_c e =? 1
                  | PLeaderClear _ _ _ _ _ => e_c e =? 0
                  | _ => false end)))
-    | PLeaderWA _ _ _ _ _, EvNotifyAvailable =>
+    | PLeaderWA _ _ _ _ _, EvNotifyAvailablePre =>
         opt (step_chk g t (fun _ p' => match p' with PLeaderClear _ _ _ _ _ => true | _ => false end))
+    | PLeaderClear _ _ _ _ _, EvNotifyAvailable => VSkip
     | PLeaderClear _ _ _ _ _, EvClear =>
         opt (step_chk g t (fun _ p' => match p' with PLeaderNotify _ _ _ _ _ => true | _ => false end))
+    | PLeaderNotify _ _ _ _ _, EvNotifyHeadPre =>
+        guard ((head_of g <? tail_of g) && (head_of g =? e_b e) && (tail_of g =? e_c e))
+              (opt (step_chk g t (fun _ p' => match p' with PIdle _ _ _ => true | _ => false end)))
     | PLeaderNotify _ _ _ _ _, EvNotifyHead =>
-        guard ((b2n (head_of g <? tail_of g) =? e_a e) && (head_of g =? e_b e) && (tail_of g =? e_c e))
+        guard ((e_a e =? 0) && negb (head_of g <? tail_of g) && (head_of g =? e_b e) && (tail_of g =? e_c e))
               (opt (step_chk g t (fun _ p' => match p' with PIdle _ _ _ => true | _ => false end)))
     | _, _ => VReject
     end
@@ -248,11 +266,122 @@ Fixpoint accept_trace (g : hg) (n : nat) (tr : list event) : hg + nat :=
       end
   end.
 
-Definition accept (slots limit : nat) (modulus : N) (progs : list (list N)) (tr : list event)
+(* ---- wake-up discipline (strict mode)
+   The plain acceptor above takes every wake-up in the trace as possibly spurious.  The strict
+   acceptor also requires every wake-up to be explained by a notification issued since the thread
+   decided to sleep.  A hook event of a notification is recorded just BEFORE the call of
+   notify_one, and the call happens before the notifier's next event; a thread's decision to
+   sleep is recorded just before it really sleeps.  So a notification explains the wake-up of
+     * a thread that was asleep on that condition variable when the event was recorded (for a
+       waiter's own condition variable this is the model's token: `PSleep idx true`);
+     * a thread that was then between its loop test and its wait (PTest/PLoad/PWait) on it;
+     * a thread that records its decision to sleep on it while the notifier is still between the
+       event and its next event (the window in which the real notify_one happens).
+   notify_one on wait_waiter_available may wake more than one sleeper when one of them is just
+   going to sleep (std's futex condition variable), so there one notification is taken to explain
+   one wake-up of EVERY call then asleep in link().  What the strict acceptor rejects is a
+   wake-up with no notification at all since the thread went to sleep: a dropped notification or
+   one sent to the wrong waiter.
+   The model state is moved only by the plain acceptor, so an accepted trace is still a run of
+   the model (ProofsAccept.v). *)
+Record astate := mkA {
+  a_g : hg;
+  a_early : list nat;           (* threads whose next wake-up from their waiter is explained *)
+  a_waflag : list nat;          (* threads whose next wake-up from link() is explained *)
+  a_open_c : list (nat * nat);  (* (notifier, index): notify_one on that waiter is in flight *)
+  a_open_wa : list nat }.       (* notifiers with a notify_one on wait_waiter_available in flight *)
+
+Fixpoint remove_nat (x : nat) (l : list nat) : list nat :=
+  match l with [] => [] | y :: r => if x =? y then remove_nat x r else y :: remove_nat x r end.
+
+Definition about_to_sleep_on (n idx : nat) (p : hpc) : bool :=
+  match p with
+  | PTest _ _ _ j | PLoad _ _ _ j | PWait _ _ _ j => j mod n =? idx mod n
+  | _ => false
+  end.
+Definition in_link_sleep (p : hpc) : bool :=
+  match p with PLinkSleep _ _ _ _ _ => true | _ => false end.
+Fixpoint select_threads (sel : hpc -> bool) (k : nat) (ths : list (thread N hout hacc)) : list nat :=
+  match ths with
+  | [] => []
+  | th :: r => (if sel (t_pc N hout hacc th) then [k] else []) ++ select_threads sel (S k) r
+  end.
+
+(* the index whose condition variable the step taken at event e notifies, if any *)
+Definition notified_index (g : hg) (e : event) : option nat :=
+  match pc_of g (e_tid e), e_kind e with
+  | Some (PBatch _ _ _ _ cur _ _), EvStore => Some cur
+  | Some (PDist _ _ _ _ cur _ _), EvStore => Some cur
+  | Some (PExitNotify _ _ _ _ _), EvNotifyHeadPre => Some (head_of g)
+  | Some (PLeaderNotify _ _ _ _ _), EvNotifyHeadPre => Some (head_of g)
+  | _, _ => None
+  end.
+
+Definition accept_event_s (strict : bool) (st : astate) (e : event) : option astate :=
+  let g := a_g st in
+  let t := e_tid e in
+  let n := nslots _ (g_wl _ _ _ _ g) in
+  (* 0. the notifier is at its next event: its notify_one calls have happened *)
+  let open_c := filter (fun x => negb (fst x =? t)) (a_open_c st) in
+  let open_wa := remove_nat t (a_open_wa st) in
+  (* 1. is a wake-up explained?  2. a decision to sleep inside a window *)
+  let pre : option (list nat * list nat) :=
+    match pc_of g t, e_kind e with
+    | Some (PLinkSleep _ _ _ _ _), EvLinkWake =>
+        if negb strict || existsb (Nat.eqb t) (a_waflag st)
+        then Some (a_early st, remove_nat t (a_waflag st)) else None
+    | Some (PSleep _ _ _ _ tok), EvWoke =>
+        if negb strict || tok || existsb (Nat.eqb t) (a_early st)
+        then Some (remove_nat t (a_early st), a_waflag st) else None
+    | Some (PEnter _ _ _ _), EvEnter => Some (remove_nat t (a_early st), a_waflag st)
+    | Some (PWait _ _ _ j), EvWait =>
+        if existsb (fun x => (snd x) mod n =? j mod n) open_c
+        then Some (t :: a_early st, a_waflag st) else Some (a_early st, a_waflag st)
+    | _, EvLinkWait =>
+        match open_wa with
+        | [] => Some (a_early st, remove_nat t (a_waflag st))
+        | _ => Some (a_early st, t :: a_waflag st)
+        end
+    | _, _ => Some (a_early st, a_waflag st)
+    end in
+  match pre with
+  | None => None
+  | Some (early, waflag) =>
+      (* 3. notifications issued by this step *)
+      let ths := g_threads _ _ _ _ g in
+      let '(early', open_c') :=
+        match notified_index g e with
+        | Some idx => (select_threads (about_to_sleep_on n idx) 0 ths ++ early, (t, idx) :: open_c)
+        | None => (early, open_c)
+        end in
+      let '(waflag', open_wa') :=
+        match e_kind e with
+        | EvNotifyAvailablePre => (select_threads in_link_sleep 0 ths ++ waflag, t :: open_wa)
+        | _ => (waflag, open_wa)
+        end in
+      match accept_event 2 g e with
+      | Some g' => Some (mkA g' early' waflag' open_c' open_wa')
+      | None => None
+      end
+  end.
+
+Fixpoint accept_trace_s (strict : bool) (st : astate) (n : nat) (tr : list event) : astate + nat :=
+  match tr with
+  | [] => inl st
+  | e :: r =>
+      match accept_event_s strict st e with
+      | Some st' => accept_trace_s strict st' (S n) r
+      | None => inr n
+      end
+  end.
+
+Definition accept (strict : bool) (slots limit : nat) (modulus : N) (extra : nat)
+           (progs : list (list N)) (tr : list event)
   : (bool * list (list (nat * hout)) * list (nat * nat * list hout) * list (nat * N)) + nat :=
-  match accept_trace (h_init slots limit modulus progs) 0 tr with
+  match accept_trace_s strict (mkA (h_init slots limit modulus extra progs) [] [] [] []) 0 tr with
   | inr n => inr n
-  | inl g =>
+  | inl st =>
+      let g := a_g st in
       inl (all_finished N hout hacc hcore g,
            map (fun th => rev (t_done N hout hacc th)) (g_threads N hout hacc hcore g),
            g_batches N hout hacc hcore g,
